@@ -52,7 +52,7 @@ Definition model_run (c : ccase) : option (list fitem * result * bool) :=
   let '(drv, prog, d, tbl, inj, outp, _, _) := c in
   match reg_run world0 prog, flags_of g_proto_flags outp with
   | Some w, Some (af, dc) =>
-      match desc_managers w d with
+      match desc_managers g_desc_parts w d with
       | Some dms => Some (run (fire_world g_ctx_fire_parts w dms (beh_of tbl)) (mk_scen inj af dc) (driver_prog drv))
       | None => None
       end
